@@ -54,6 +54,9 @@ type Case struct {
 //	        stored, every later one fails until healed - a sync on B is interrupted mid-way
 //	heal    with B up wait until the fault has interrupted a sync (bounded), then clear it; also done
 //	        implicitly before a full checkpoint and before the final phase
+//	racew   with B up, wait (at most 6 s) until B stores a block of an incoming push - A's push-log call,
+//	        typically the retry after an outage, is then in flight - and write to document slot Doc on A
+//	        at that moment; if nothing arrives the write happens anyway
 //	pause   let Ms milliseconds pass (outage length; lets the retry loop run while B is still down)
 type Op struct {
 	K     string  `json:"k"`
@@ -78,7 +81,8 @@ var rec = hx.NewRecorder("C15",
 	"cases are drawn up front: configuration in {replicator A->B, B subscribed to the collection via pubsub, both} x {B bootstraps from A or not} "+
 		"x {collection @branchable or not} x {pubsub enabled on A or not (replicator only)}, 1-4 document slots, "+
 		"5-14 steps from {write (create, update register n, increment counter c, write an added field, delete), PatchSchema add-field (up to two; on both nodes or on A only), "+
-		"close B's peer, reopen B's peer on the same key and port (each optionally with a burst of 1-5 writes issued concurrently), pause 50ms-5s, checkpoint, SetReplicator}; "+
+		"close B's peer, reopen B's peer on the same key and port (each optionally with a burst of 1-5 writes issued concurrently), pause 50ms-5s, checkpoint, SetReplicator, "+
+		"block-write fault on B (a sync interrupted mid-way) and its healing, a write on A timed to the moment B stores a block of an incoming push (the retry after an outage is then in flight)}; "+
 		"step weights depend on the simulated state (B up/down, writes in this outage, patches so far) so that outages, writes during and after them and patches during them dominate; "+
 		"half of the cases avoid the triggers of the listed known findings by construction; "+
 		"non-trivial = at least one write while B's peer was down and at least one write after it came back; distinct by case JSON",
@@ -150,6 +154,7 @@ func drawCase(t *rapid.T) Case {
 	}
 	n := rapid.IntRange(5, 14).Draw(t, "nops")
 	writesThisOutage := 0
+	justUp, lastOutageDoc := false, -1
 	armed, faults := false, 0
 	for i := 0; i < n; i++ {
 		// rapid's integer generator favours small values, so the kind listed first is drawn most
@@ -169,6 +174,12 @@ func drawCase(t *rapid.T) Case {
 			patchW(8)
 			add("settle", 6)
 			add("pause", 3)
+		case up && justUp && lastOutageDoc >= 0:
+			// B just came back and A owes it documents: the retry is about to run
+			add("racew", 55)
+			add("w", 25)
+			add("settle", 10)
+			add("down", 10)
 		case up:
 			add("w", 50)
 			add("settle", 15)
@@ -205,13 +216,29 @@ func drawCase(t *rapid.T) Case {
 		}
 		k := pick(t, "kind", kinds, weights)
 		op := Op{K: k}
+		wasJustUp := justUp
+		justUp = false
 		switch k {
+		case "racew":
+			w := drawWrite(t, &c, patched)
+			op.F, op.V = w.F, w.V
+			if op.F == "del" {
+				op.F = "n"
+			}
+			// mostly the document written during the outage: its retry is the push in flight
+			op.Doc = lastOutageDoc
+			if rapid.IntRange(0, 3).Draw(t, "otherdoc") == 0 {
+				op.Doc = w.Doc
+			}
+			// the retry of the next document may follow: stay in the "just up" state once more
+			justUp = wasJustUp && rapid.Bool().Draw(t, "again")
 		case "w":
 			w := drawWrite(t, &c, patched)
 			op.Doc, op.F, op.V = w.Doc, w.F, w.V
 			op.Wait = rapid.IntRange(0, 2).Draw(t, "wait") == 0
 			if !up {
 				writesThisOutage++
+				lastOutageDoc = w.Doc
 			}
 		case "down", "up":
 			if rapid.IntRange(0, 2).Draw(t, "hasburst") == 0 {
@@ -224,7 +251,14 @@ func drawCase(t *rapid.T) Case {
 			if k == "down" {
 				outages++
 				writesThisOutage = len(op.Burst)
+				lastOutageDoc = -1
 			}
+			for _, bw := range op.Burst {
+				if k == "down" || !up {
+					lastOutageDoc = bw.Doc
+				}
+			}
+			justUp = k == "up" && lastOutageDoc >= 0
 		case "patch":
 			patched++
 			op.AOnly = allowAOnly && rapid.IntRange(0, 3).Draw(t, "aonly") == 0
@@ -265,6 +299,7 @@ type shape struct {
 	faults                    int
 	faultTwoBehind            bool // fault armed while B is down and some document got >= 2 writes in this outage
 	faultWhileUp              bool
+	raceWrites                int // writes timed to land while a push to B is in flight
 }
 
 func shapeOf(c Case) shape {
@@ -298,6 +333,9 @@ func shapeOf(c Case) shape {
 		switch op.K {
 		case "w":
 			countWrite(op.Doc, op.F)
+		case "racew":
+			countWrite(op.Doc, op.F)
+			s.raceWrites++
 		case "down":
 			if up {
 				s.outages++
@@ -432,6 +470,9 @@ func labelsOf(c Case, s shape) []string {
 	}
 	if s.faultWhileUp {
 		l = append(l, "sync-fault-armed-while-b-up")
+	}
+	if s.raceWrites > 0 {
+		l = append(l, "write-timed-into-a-push-in-flight")
 	}
 	if s.longOutage {
 		l = append(l, "retry-attempted-while-b-still-down")
